@@ -40,6 +40,12 @@ var effectOps = map[string]string{
 	modPath + "lib/libif.Up":                                       "Up",
 	modPath + "lib/libif.SetIface":                                 "SetIface",
 	"(*golang.org/x/time/rate.Limiter).Allow":                      "LimiterAllow",
+	// server.New: building the lease database (the database itself is lib/server/ipdb, translated separately)
+	modPath + "lib/server/ipdb.New":                                   "IpdbNew",
+	"(*" + modPath + "lib/server/ipdb.IPDB).SetDynamicRange":          "SetDynamicRange",
+	"(*" + modPath + "lib/server/ipdb.IPDB).DisableDynamic":           "DisableDynamic",
+	"(*" + modPath + "lib/server/ipdb.IPDB).AddPermanentClient":       "AddPermanentClient",
+	modPath + "lib/libif.InterfaceAddr":                                "InterfaceAddr",
 	// sockets and the ARP prober (lib/rsocks, lib/arpping seen from lib/server)
 	modPath + "lib/rsocks.GetIPRecvSock":  "OpenIPRecvSock",
 	modPath + "lib/rsocks.GetARPRecvSock": "OpenARPRecvSock",
@@ -89,7 +95,7 @@ func effectOf(f *types.Func) (string, bool) {
 	if f == nil {
 		return "", false
 	}
-	if f.Pkg() != nil && f.Pkg().Path() == curPkgForEffects && (strings.HasSuffix(curPkgForEffects, "/clients") || strings.HasSuffix(curPkgForEffects, "/arpping")) {
+	if f.Pkg() != nil && f.Pkg().Path() == curPkgForEffects && (strings.HasSuffix(curPkgForEffects, "/clients") || strings.HasSuffix(curPkgForEffects, "/arpping") || strings.HasSuffix(curPkgForEffects, "/ipdb")) {
 		return "", false
 	}
 	op, ok := effectOps[f.FullName()]
@@ -132,8 +138,9 @@ func (x *X) envDef() string {
 	}
 	doc["ArpEnv"] = "The world outside the translated ARP prober (lib/arpping): the receive socket and the sender goroutine."
 	doc["CliEnv"] = "The world outside the translated client automaton (lib/client/dclient): sockets, the exchange primitive, libif, the prober, callbacks, clock, rate limiter."
+	doc["NewEnv"] = "The world outside the translated constructor server.New: the interface's address and the lease database being configured."
 	doc["RunEnv"] = "The world outside the translated receive loop and prober wrapper of lib/server: the receive socket, the handler goroutines it starts, the ARP prober."
-	for _, env := range []string{"Env", "DbEnv", "ArpEnv", "RunEnv", "CliEnv"} {
+	for _, env := range []string{"Env", "DbEnv", "ArpEnv", "RunEnv", "CliEnv", "NewEnv"} {
 		n := 0
 		for _, o := range ops {
 			if o.env == env {
@@ -160,6 +167,9 @@ func (c *fctx) envName() string {
 	// their own environment keeps the handlers' `Env` unchanged
 	if strings.HasSuffix(c.fi.pkg.PkgPath, "lib/server") && (c.fi.obj.Name() == "Run" || c.fi.obj.Name() == "arpVerify") {
 		return "RunEnv"
+	}
+	if strings.HasSuffix(c.fi.pkg.PkgPath, "lib/server") && c.fi.obj.Name() == "New" {
+		return "NewEnv"
 	}
 	return envOfPkg(c.fi.pkg.PkgPath)
 }
